@@ -85,6 +85,7 @@ structure InstW where
   stopCalledSince : Option Nat := none
   lastTo : Nat := 1             -- to-state of the last recorded transition (CANDIDATE right after Start)
   lastOwnTok : Nat := 0         -- token of this instance's latest successful write
+  orphanTok : Option Nat := none -- token of an acquiring write of this run acknowledged after the run had ended (stop call begun / context cancelled): never claimed, the record exists
   lastAckRev : Nat := 0         -- revision of its latest successful write whose answer was delivered
   lastAckAt : Nat := 0          -- when that answer was delivered
   lastDeleteFailedAt : Option Nat := none   -- its latest Delete that was refused, lost or not answered in time
@@ -97,6 +98,7 @@ structure InstW where
   hbPending : Option (Nat × Nat) := none   -- (op id, call time) of the refresh attempt in flight
   hbLastOkStart : Nat := 0      -- start of the last successful refresh (or of the acquiring write)
   hbFails : Nat := 0            -- consecutive failed refresh attempts
+  noProgressReported : Bool := false -- the 'no successful refresh for too long' clause has fired for the current stretch
   lostAt : Option Nat := none   -- the record was replaced / deleted / expired underneath at that time (while leading)
   demoteDue : Option (Nat × String) := none  -- the instance must have stopped claiming by then (and why)
   lastHealthAt : Option (Nat × Bool) := none -- time and result of the latest health check of the current term
